@@ -37,9 +37,21 @@ RuleCatalogue == {
   Rule(<<<<F("payee", "migros")>>>>, FALSE, "MIGROS AG", NoneS),
   Rule(<<<<F("payee", "^MIGROS AG$")>>, <<F("payee", "^SHOP$")>>>>, FALSE, NoneS, "Expenses:AG")
 }
-Records == {[payee |-> p, category |-> c] : p \in {"Card 123 Migros", "Migros", "Coop City", "cashback"}, c \in {NoneS, "Grocery", "Travel"}}
+NoFields == [x \in {} |-> ""]
+Records == {[payee |-> p, category |-> c, fields |-> NoFields] : p \in {"Card 123 Migros", "Migros", "Coop City", "cashback"}, c \in {NoneS, "Grocery", "Travel"}}
 
 SeqsUpTo(S, n) == UNION {[1..m -> S] : m \in 0..n}
+
+\* ---------------------------------------------------------------- Camt053: which element a matcher field reads
+CamtText == [f \in {"creditor_name", "creditor_account_id", "ultimate_creditor_name", "debtor_name", "debtor_account_id",
+                     "ultimate_debtor_name", "remittance_unstructured_info", "additional_entry_info", "additional_transaction_info"} |->
+               CASE f = "creditor_name" -> "Creditor AG" [] f = "creditor_account_id" -> "CH4389144154892413697"
+                 [] f = "ultimate_creditor_name" -> "Final Creditor GmbH" [] f = "debtor_name" -> "Debtor Taro"
+                 [] f = "debtor_account_id" -> "CH5604835012345678009" [] f = "ultimate_debtor_name" -> "Original Debtor KK"
+                 [] f = "remittance_unstructured_info" -> "invoice 2024-17" [] f = "additional_entry_info" -> "entry level text"
+                 [] f = "additional_transaction_info" -> "detail level text"]
+CamtPat(g) == "^" \o CamtText[g] \o "$"
+CamtMatchTable == [p \in {CamtPat(g) : g \in DOMAIN CamtText} |-> [t \in {CamtText[g] : g \in {h \in DOMAIN CamtText : CamtPat(h) = p}} |-> Plain]]
 
 \* ---------------------------------------------------------------- documents
 Doc(path, account, at, commodity, operator, rs) == [path |-> path, account |-> account, account_type |-> at, commodity |-> commodity, operator |-> operator, rules |-> rs]
@@ -64,17 +76,25 @@ MCInit ==
   \/ /\ Scenario = "rules"
      /\ rules \in SeqsUpTo(RuleCatalogue, MaxRules) /\ rec \in Records
      /\ frag = Frag0 /\ idx = 1 /\ docs = NoDocs /\ file = ""
+  \/ /\ Scenario = "camt"
+     /\ \E f \in DOMAIN CamtText, g \in DOMAIN CamtText :
+          rules = <<Rule(<<<<F(f, CamtPat(g))>>>>, FALSE, NoneS, "Expenses:Hit")>>
+     /\ rec = [payee |-> "unknown payee", category |-> NoneS, fields |-> CamtText]
+     /\ frag = Frag0 /\ idx = 1 /\ docs = NoDocs /\ file = ""
   \/ /\ Scenario = "table"
-     /\ rules = <<>> /\ rec = [payee |-> "", category |-> NoneS] /\ frag = Frag0 /\ idx = 1 /\ docs = NoDocs /\ file = ""
+     /\ rules = <<>> /\ rec = [payee |-> "", category |-> NoneS, fields |-> NoFields] /\ frag = Frag0 /\ idx = 1 /\ docs = NoDocs /\ file = ""
   \/ /\ Scenario = "layers"
      /\ docs \in SeqsUpTo(DocCatalogue, 3) /\ file \in Files
-     /\ rules = <<>> /\ rec = [payee |-> "", category |-> NoneS] /\ frag = Frag0 /\ idx = 1
+     /\ rules = <<>> /\ rec = [payee |-> "", category |-> NoneS, fields |-> NoFields] /\ frag = Frag0 /\ idx = 1
 MCNext == ApplyRule /\ UNCHANGED <<docs, file>>
 MCSpec == MCInit /\ [][MCNext]_mcvars
 
 LayersAgree == Scenario = "layers" => SelectAgrees(docs, file)
 
 Emit ==
+  /\ (Scenario = "camt" /\ Done) =>
+        PrintT(<<"REPLAY", ToJson([module |-> "ImportRules", scenario |-> "camt", rules |-> rules, fields |-> rec.fields,
+                                   expect |-> Outcome(TRUE)])>>)
   /\ (Scenario = "rules" /\ Done) =>
         PrintT(<<"REPLAY", ToJson([module |-> "ImportRules", scenario |-> "rules", rules |-> rules, rec |-> rec,
                                    expect |-> [neg |-> Outcome(TRUE), pos |-> Outcome(FALSE)]])>>)
